@@ -112,8 +112,8 @@ def env_check(work, prop, tier, seed, t0, jobs, invariants, model_runs, rule, as
                 if any(x.invariant for x in vv):
                     confirmed = True
                     break
-        os.makedirs(os.path.join(VERIF, "replays"), exist_ok=True)
-        path = os.path.join(VERIF, "replays", "%s-%s.cmd.json" % (prop, hashlib.md5(json.dumps(rep, sort_keys=True).encode()).hexdigest()[:12]))
+        os.makedirs(REPLAY_DIR, exist_ok=True)
+        path = os.path.join(REPLAY_DIR, "%s-%s.cmd.json" % (prop, hashlib.md5(json.dumps(rep, sort_keys=True).encode()).hexdigest()[:12]))
         if not confirmed:
             raise Infra("%s in job %s did not reproduce in %d fresh runs: %s" % (kind, job.label, tries, json.dumps(rep)[:1500]))
         json.dump(rep, open(path, "w"), indent=1)
